@@ -56,7 +56,10 @@ def m_round(it, args, callee, depth):
 
 def interp(prog, counts, log=None, extra_models=None):
     """counts: iterator of scenario counts handed out for casts of `RND(a) - RND(b)`"""
-    models = {"raster::round_up_to_half": m_round, "f32>::recip": S.m_recip}
+    # any other use of floor (a snapping step, say) is an opaque function of its argument
+    m_floor = S._opaque("FLOOR")
+    models = {"raster::round_up_to_half": m_round, "f32>::recip": S.m_recip,
+              "f32>::floor": m_floor, "$float::fallback::floor": m_floor, "$::floorf": m_floor, "$float::mm::floor": m_floor, "$float::libm::floor": m_floor}
     models.update(extra_models or {})
     it = S.interp(prog, models=models)
     counts = iter(counts)
@@ -84,13 +87,16 @@ def planar_vertex(x, y):
     return ("tuple", [pt(x, y, plane("g", x, y)), plane("f", x, y)])
 
 
-def run_scan(prog, rows, cols):
-    """scan() on a symbolic trapezoid with planar data; returns (interpreter, rows x cols fragments, scanlines, count log)"""
+def run_scan(prog, rows, cols, fork=None):
+    """scan() on a symbolic trapezoid with planar data; returns (interpreter, rows x cols fragments, scanlines, count log).
+    `fork`: oracle for comparisons the code makes on symbolic values (see explore_scan)."""
     y0, y1 = sym("y0"), sym("y1")
     l0, l1 = planar_vertex(sym("lx0"), y0), planar_vertex(sym("lx1"), y1)
     r0, r1 = planar_vertex(sym("rx0"), y0), planar_vertex(sym("rx1"), y1)
     log = []
     it = interp(prog, [rows] + [cols] * rows, log)
+    if fork is not None:
+        it.oracle = fork
     try:
         sc = it.call_body(prog.body(R + "scan"), [rng(y0, y1), rng(S.ref_to(l0), S.ref_to(l1)), rng(S.ref_to(r0), S.ref_to(r1))], env={"V": "f32"})
         cell = A.Frame(None)
@@ -109,3 +115,51 @@ def run_scan(prog, rows, cols):
     except (A.Undecided, A.Panic, S.NotPolynomial, IndexError, KeyError, TypeError) as e:
         raise common.Infra("raster: scan()/ScanlineIter::next/fragments could not be interpreted symbolically (%s)" % e)
     return it, frags, lines, log
+
+
+def explore_scan(prog, rows, cols, max_paths=8):
+    """[(trace, (it, frags, lines, log))]: one entry per way through the comparisons scan()/next()/fragments() make on symbolic
+    values (none on the pristine code: a single entry with an empty trace). A guard added to the scan converter forks here."""
+    try:
+        return S.explore(lambda o: run_scan(prog, rows, cols, o), max_paths=max_paths)
+    except A.Undecided as e:
+        raise common.Infra("raster: scan() has more data-dependent branches than the rule explores (%s)" % e)
+
+
+def scan_witness(trace, log, rows, cols, checks, tries=6000):
+    """A concrete trapezoid + planes that (a) follows the forked path, (b) has the scenario's row and fragment counts and (c) on which
+    one of the numeric `checks` [(label, kind, got, want)] deviates by more than the property's tolerance (kind 'px': 0.001 px;
+    'depth' / 'attr': 0.5 % of the range of the corner values). Deterministic pseudo-random search; None if nothing is found.
+    The values compared are the formulas extracted from the code; the search only exhibits an input, it never accepts a path."""
+    import random
+    rnd = random.Random(914)
+    g = lambda p, x, y: p["gx"] * x + p["gy"] * y + p["gc"]  # noqa: E731
+    f = lambda p, x, y: p["fx"] * x + p["fy"] * y + p["fc"]  # noqa: E731
+    for _ in range(tries):
+        y0 = rnd.uniform(0, 300)
+        y1 = y0 + rows + rnd.uniform(-0.45, 0.45)
+        lx0 = rnd.uniform(0, 1200)
+        lx1 = lx0 + rnd.uniform(-1.5, 1.5) * rows
+        w0, w1 = cols + rnd.uniform(-0.9, 0.9), cols + rnd.uniform(-0.9, 0.9)
+        p = {"y0": y0, "y1": y1, "lx0": lx0, "lx1": lx1, "rx0": lx0 + w0, "rx1": lx1 + w1,
+             "gx": rnd.uniform(-3e-4, 3e-4), "gy": rnd.uniform(-3e-4, 3e-4), "gc": 1.0,
+             "fx": rnd.uniform(-1, 1), "fy": rnd.uniform(-1, 1), "fc": rnd.uniform(-1, 1)}
+        try:
+            if not S.trace_holds(trace, p):
+                continue
+            if any(S.num_eval(a, p) - S.num_eval(b, p) != n for a, b, n in log):
+                continue
+            corners = [(p["lx0"], y0), (p["rx0"], y0), (p["lx1"], y1), (p["rx1"], y1)]
+            gs = [g(p, x, y) for x, y in corners]
+            if min(gs) <= 0.1:
+                continue
+            at = [f(p, x, y) / g(p, x, y) for x, y in corners]
+            rng_ = {"px": None, "depth": max(gs) - min(gs), "attr": max(at) - min(at)}
+            for label, kind, got, want in checks:
+                a, b = S.num_eval(got, p), S.num_eval(want, p)
+                tol = 1e-3 if kind == "px" else 5e-3 * rng_[kind]
+                if not (abs(a - b) <= tol):
+                    return {"input": {k: round(v, 6) for k, v in p.items()}, "check": label, "got": a, "want": b, "tolerance": tol}
+        except (S.NotNumeric, ZeroDivisionError, OverflowError):
+            continue
+    return None
